@@ -18,5 +18,6 @@ package tracing
 //@   guarantee [ends-only-this] forall k datatransfer.ChannelID :: (has(self.spans, k) <==> old(has(self.spans, k)) && k != chid)
 
 //@ func (*tracing.SpansIndex).EndAll {C20}
+//@   acquires {C20} tracing.SpansIndex.spansLk
 //@   modifies si.spans
 //@   loop 0 invariant [all-spans] true
